@@ -370,6 +370,10 @@ def digest_matrix(ctx, level, t):
         jobs.append((gi, "base", amb(base)))
         jobs.append((gi, "again", amb(base)))
         jobs.append((gi, "twice-fresh-model", amb({**base, "repeat": 2})))
+        if gi in (0, 1):
+            other = dict(sampler="ins", model="vec", seed=base["seed"] + 1, flows="fake") if base["sampler"] == "ns" else \
+                dict(sampler="ns", model="vec", seed=base["seed"] + 1, max_iteration=120)
+            jobs.append((gi, "after-another-run", amb({**base, "prelude": other})))
         if edge:
             if base["seed"] == 0:
                 fresh.append((gi, 7, runs.start_fresh_interpreter(amb(base), 7)))
@@ -412,7 +416,7 @@ def digest_matrix(ctx, level, t):
                 if role in ("unknown-size-pool", "observe-reused-instance"):
                     ctx.case(("run", tag, role, "err"), True, None, kind="run-error:" + role)
                     continue
-                if role in ("again", "twice-fresh-model"):
+                if role in ("again", "twice-fresh-model", "after-another-run"):
                     ctx.oracle_fail(f"seeded-run.same-config.{role}.raised.{tag}",
                                     "a repeat of the base run (same seed, same model definition, the same configuration objects) "
                                     f"raised: {r[1][:300]}", case)
@@ -427,6 +431,12 @@ def digest_matrix(ctx, level, t):
                     ctx.oracle_fail(f"seeded-run.same-config.two-processes.{tag}",
                                     f"two runs with identical seed/model/configuration in two processes differ in {df}",
                                     {**case, "digest": d})
+            elif role == "after-another-run":
+                df = differs(b, d)
+                if df:
+                    ctx.oracle_fail(f"seeded-run.same-config.after-another-run.{tag}",
+                                    f"the same seeded run differs in {df} when another run (the other sampler) was made before it in "
+                                    "the same process", {**case, "digest": d})
             elif role == "twice-fresh-model":
                 for k, dd in enumerate(d["seq"]):
                     df = differs(b, dd)
